@@ -17,6 +17,15 @@ import (
 	"strings"
 )
 
+// tvKF: outcome of the isolated known-finding templates (kf_*.gostyle) of the last prepareTV(id)
+type tvKFResult struct {
+	Template string
+	Failed   bool
+	Output   string
+}
+
+var tvKF = map[string][]tvKFResult{}
+
 func tvDir(id string) string { return filepath.Join(verifRoot, "work", "tv", id) }
 
 // tvCompileError: the compiler of the current tree rejected a template (all templates are valid,
@@ -38,6 +47,7 @@ func prepareTV(id string) (int, error) {
 	lid := strings.ToLower(id)
 	src := filepath.Join(verifRoot, "harness", "tv", lid)
 	dir := tvDir(id)
+	delete(tvKF, id)
 	os.RemoveAll(dir)
 	if err := os.MkdirAll(dir, 0755); err != nil {
 		return 0, err
@@ -103,6 +113,39 @@ func prepareTV(id string) (int, error) {
 			os.Remove(xsrc)
 			os.WriteFile(filepath.Join(dir, "ref_"+base+".go"), []byte(strings.ReplaceAll(string(b), "P_", "R_")), 0644)
 			n++
+		case strings.HasSuffix(name, ".gostyle") && strings.HasPrefix(name, "kf_"):
+			// template of an open known finding: compiled in isolation, not part of the package; the
+			// driver reports KNOWN-FINDING while the compiler (or converter) still rejects it
+			b, err := os.ReadFile(filepath.Join(src, name))
+			if err != nil {
+				return n, err
+			}
+			gsrc := filepath.Join(dir, "kf_tmp.go")
+			os.WriteFile(gsrc, []byte(strings.ReplaceAll(string(b), "P_", "X_")), 0644)
+			out := filepath.Join(dir, "kf_tmp_out.go")
+			c := exec.Command(helper, "gopstyle", gsrc, out)
+			c.Env = goEnv()
+			c.Dir = hdir
+			o, err := c.CombinedOutput()
+			res := tvKFResult{Template: name, Failed: err != nil, Output: strings.TrimSpace(string(o))}
+			if err == nil {
+				// the conversion compiles: the emitted Go must type-check, too
+				edir := dir + "_kf"
+				os.RemoveAll(edir)
+				os.MkdirAll(edir, 0755)
+				eb, _ := os.ReadFile(out)
+				os.WriteFile(filepath.Join(edir, "x.go"), eb, 0644)
+				os.WriteFile(filepath.Join(edir, "go.mod"), []byte("module vxtvkf\n\ngo 1.18\n\nrequire github.com/goplus/xgo v0.0.0\n\nreplace github.com/goplus/xgo => "+repoRoot+"\n"), 0644)
+				os.WriteFile(filepath.Join(edir, "go.sum"), sum, 0644)
+				if msg := typeCheckDir(edir); msg != "" {
+					res.Failed, res.Output = true, msg
+				}
+				os.RemoveAll(edir)
+			}
+			tvKF[id] = append(tvKF[id], res)
+			os.Remove(gsrc)
+			os.Remove(out)
+			os.Remove(out + ".xgo.txt")
 		case strings.HasSuffix(name, ".gostyle"):
 			// a Go program converted to XGo style by the real x/format.GopstyleSource (names X_...), compiled
 			// by the real compiler; the same text as plain Go (names R_...) is the reference
@@ -122,6 +165,13 @@ func prepareTV(id string) (int, error) {
 				return n, tvErr(name, err, append(o, append([]byte("\n--- converted source ---\n"), styled...)...))
 			}
 			os.Remove(gsrc)
+			if !strings.Contains(string(b), "func main()") {
+				// the compiler adds an empty entry function to a main package without one: drop it, the
+				// generated package holds several templates
+				if eb, err := os.ReadFile(out); err == nil {
+					os.WriteFile(out, []byte(strings.Replace(string(eb), "func main() {\n}\n", "", 1)), 0644)
+				}
+			}
 			if styled, err := os.ReadFile(out + ".xgo.txt"); err == nil {
 				os.WriteFile(filepath.Join(dir, "styled_"+base+".xgo.txt"), styled, 0644)
 				os.Remove(out + ".xgo.txt")
